@@ -138,6 +138,10 @@ open MpVerif.Gen.C18
 
 theorem C18_gen_hashCombine (s h : UInt64) : combine s h = hashCombine s h := rfl
 
+/-- the generated `HashCombine` as a function -/
+theorem hashCombine_eq : hashCombine = combine := by
+  funext s h; rfl
+
 theorem C18_gen_equal_step (a b : E C) :
     equalX N a b = equalStep N equalEntry cmpBody (equalX N) a b := by
   cases a with
@@ -165,14 +169,26 @@ theorem C18_gen_equal_step (a b : E C) :
       · simp [equalX, equalStep, equalEntry, E.kind, h]
     | _ => simp [equalX, equalStep, equalEntry, E.kind]
   | pl sb last arg =>
-    cases b <;> simp [equalX, equalStep, equalEntry, visitCmp, E.kind, cmpBody, opaqueCmp]
+    cases b with
+    | pl sb' last' arg' =>
+      simp only [equalX, equalStep, equalEntry, visitCmp, E.kind, cmpBody, ne_eq, not_true_eq_false, if_false]
+      exact tie_cmp_pl N (equalX N) sb sb' last last' arg arg'
+    | _ => simp [equalX, equalStep, equalEntry, E.kind]
   | call f as =>
-    cases b <;> simp [equalX, equalStep, equalEntry, visitCmp, E.kind, cmpBody, opaqueCmp]
+    cases b with
+    | call g bs =>
+      simp only [equalX, equalStep, equalEntry, visitCmp, E.kind, cmpBody, ne_eq, not_true_eq_false, if_false]
+      exact tie_cmp_call N f g as bs
+    | _ => simp [equalX, equalStep, equalEntry, E.kind]
   | iter k as =>
     cases b with
     | iter k' bs =>
       by_cases h : k = k'
-      · subst h; cases k <;> simp [equalX, equalStep, equalEntry, visitCmp, E.kind, cmpBody, opaqueCmp, IterK.unsupported]
+      · subst h
+        cases k <;>
+          simp only [equalX, equalStep, equalEntry, visitCmp, E.kind, cmpBody, IterK.unsupported, ne_eq, not_true_eq_false,
+            if_false, if_true, Bool.false_eq_true] <;>
+          first | rfl | exact tie_cmp_vararg N _ as bs
       · simp [equalX, equalStep, equalEntry, E.kind, h]
     | _ => simp [equalX, equalStep, equalEntry, E.kind]
   | bool x => cases b <;> simp [equalX, equalStep, equalEntry, visitCmp, E.kind, cmpBody, conjSem, atomSem]
@@ -193,20 +209,21 @@ theorem C18_gen_hash_step (a : E C) :
     cases k <;> simp only [hashX, hashStep, hashEntry, hashBody, E.kind, chainSem, child, hashKind, hashSeed, ← C18_gen_hashCombine] <;>
       first | rfl | (cases hashX P c <;> cases hashX P t <;> cases hashX P e <;> simp)
   | pl sb last arg =>
-    simp only [hashX, hashStep, hashEntry, hashBody, E.kind, opaqueHash]
-    cases hashX P arg <;> rfl
-  | call f as => simp [hashX, hashStep, hashEntry, hashBody, E.kind, opaqueHash]
-  | iter k as => cases k <;> simp [hashX, hashStep, hashEntry, hashBody, E.kind, opaqueHash, IterK.unsupported]
+    simp only [hashX, hashStep, hashEntry, hashBody, E.kind, hashKind, hashSeed, hashCombine_eq]
+    exact tie_hash_pl P sb last arg _
+  | call f as =>
+    simp only [hashX, hashStep, hashEntry, hashBody, E.kind, hashKind, hashSeed, hashCombine_eq]
+    exact tie_hash_call P f as _
+  | iter k as =>
+    cases k <;>
+      simp only [hashX, hashStep, hashEntry, hashBody, E.kind, hashKind, hashSeed, hashCombine_eq, IterK.unsupported,
+        if_true, if_false, Bool.false_eq_true] <;>
+      first | rfl | exact tie_hash_vararg P _ as _
   | bool v => simp [hashX, hashStep, hashEntry, hashBody, E.kind, chainSem, hashKind, hashSeed, ← C18_gen_hashCombine]
-  | str s => simp [hashX, hashStep, hashEntry, hashBody, E.kind, opaqueHash]
+  | str s =>
+    simp only [hashX, hashStep, hashEntry, hashBody, E.kind, hashKind, hashSeed, hashCombine_eq]
+    exact tie_hash_str P s _
 
-theorem C18_gen_shape_cmp_VisitPLTerm : cmpShape_VisitPLTerm = Frozen.cmpShape_VisitPLTerm := rfl
-theorem C18_gen_shape_cmp_VisitCall : cmpShape_VisitCall = Frozen.cmpShape_VisitCall := rfl
-theorem C18_gen_shape_cmp_VisitVarArg : cmpShape_VisitVarArg = Frozen.cmpShape_VisitVarArg := rfl
-theorem C18_gen_shape_hash_VisitPLTerm : hashShape_VisitPLTerm = Frozen.hashShape_VisitPLTerm := rfl
-theorem C18_gen_shape_hash_VisitCall : hashShape_VisitCall = Frozen.hashShape_VisitCall := rfl
-theorem C18_gen_shape_hash_VisitVarArg : hashShape_VisitVarArg = Frozen.hashShape_VisitVarArg := rfl
-theorem C18_gen_shape_hash_VisitStringLiteral : hashShape_VisitStringLiteral = Frozen.hashShape_VisitStringLiteral := rfl
 /-- members of the handle classes (include/mp/expr.h) that the loop-carrying handlers call -/
 theorem C18_gen_helper_CallExpr_arg : helperShape_CallExpr_arg = Frozen.helperShape_CallExpr_arg := rfl
 theorem C18_gen_helper_CallExpr_function : helperShape_CallExpr_function = Frozen.helperShape_CallExpr_function := rfl
